@@ -63,7 +63,7 @@ for n in ("selected_altitude", "selected_heading", "baro_pressure_setting", "aut
 FUNCS["adsb.tcas_operational"]["st29"] = (0, 1)
 
 # pair / reference functions
-reg("adsb.position", "pyModeS.adsb.position", pair=True, variants=[{"args": (3, 7)}, {"args": (7, 3)}, {"args": (3, 7, 52.0, 4.0)}])
+reg("adsb.position", "pyModeS.adsb.position", pair=True, pairdom="position", variants=[{"args": (3, 7)}, {"args": (7, 3)}, {"args": (3, 7, 52.0, 4.0)}])
 reg("adsb.airborne_position", "pyModeS.adsb.airborne_position", pair=True, variants=[{"args": (3, 7)}, {"args": (7, 3)}])
 reg("adsb.surface_position", "pyModeS.adsb.surface_position", pair=True, variants=[{"args": (3, 7, -43.5, 172.5)}, {"args": (7, 3, 2.0, -179.5)}])
 reg("adsb.position_with_ref", "pyModeS.adsb.position_with_ref", df=ADSB, tc=POS, variants=[{"args": (49.0, 6.0)}, {"args": (-89.5, 179.9)}])
@@ -116,6 +116,46 @@ def domain_term(spec, fr, ln):
         st = core.bits_to_int(fr["ME"].bits[5:8])
         cs.append(st != 2)
     return z3.And(cs) if cs else z3.BoolVal(True)
+
+
+def _cls_term(fr):
+    from symx import core
+    df = fr["DF"].int()
+    tc = core.bits_to_int(fr["ME"].bits[:5])
+    adsb = z3.Or(df == 17, df == 18)
+    return adsb, tc
+
+
+def pair_domain_term(spec, fr, fr2, ln, nargs):
+    """position(msg0, msg1, ...): a value only for two DF17/18 frames of the same position class (two TC 5-8 frames need
+    the reference position as well)"""
+    if spec.get("pairdom") != "position":
+        return z3.BoolVal(True)
+    if ln != 28:
+        return z3.BoolVal(False)
+    a0, t0 = _cls_term(fr)
+    a1, t1 = _cls_term(fr2)
+    both = lambda lo, hi: z3.And(t0 >= lo, t0 <= hi, t1 >= lo, t1 <= hi)
+    cls = z3.Or(both(9, 18), both(20, 22)) if nargs < 4 else z3.Or(both(5, 8), both(9, 18), both(20, 22))
+    return z3.And(a0, a1, cls)
+
+
+def pair_in_domain_concrete(spec, msg, msg2, nargs):
+    if spec.get("pairdom") != "position":
+        return True
+    if len(msg) != 28 or len(msg2) != 28:
+        return False
+
+    def cls(m):
+        n = int(m, 16)
+        if (n >> 107) not in (17, 18):
+            return None
+        tc = (n >> 75) & 31
+        return "s" if 5 <= tc <= 8 else "b" if 9 <= tc <= 18 else "g" if 20 <= tc <= 22 else None
+    c0, c1 = cls(msg), cls(msg2)
+    if c0 is None or c0 != c1:
+        return False
+    return c0 != "s" or nargs >= 4
 
 
 def in_domain_concrete(spec, msg):
